@@ -149,3 +149,17 @@ def C16_H_start_normalised(req, imp):
         if (len(start) > 1 and start.endswith("/")) or "//" in start or "/./" in start or start.endswith("/."):
             return True
     return False
+
+
+def C17_first_match_not_whole(req, imp, model):
+    """-regex asks the regex engine for its first match at the start of the path (leftmost
+    alternative first, greedy repetition) and compares that length with the path's; when an earlier
+    choice succeeds with a shorter match the test is false although the whole path is in the
+    pattern's language ('a\\|ab' on 'ab', 'a*\\(ab\\)?' on 'aab').  The deviation is exactly this
+    mechanism when the implementation answers what the model of that mechanism answers."""
+    parts = req.split(" ")
+    if parts[0] == "regex-match":
+        return imp == "0" and model == "0"
+    if parts[0] == "find" and "regex:" in req:
+        return model == imp
+    return False
